@@ -439,6 +439,14 @@ def _call(node, sc):
         return Val(NUM, z3.If(to_real(x) >= 0, to_real(x), -to_real(x)))
     if name == "floor":
         return Val(INT, z3.ToInt(to_real(args[0])))
+    if name == "after_first":  # the part of s after the first occurrence of sep (s.split(sep, 1)[1])
+        s_, sep = args[0].v, args[1].v
+        i = z3.IndexOf(s_, sep, 0)
+        return Val(STR, z3.SubString(s_, i + z3.Length(sep), z3.Length(s_) - i - z3.Length(sep)))
+    if name == "fmt":  # fmt(fstring, a, b, ...): python's fstring.format(a, b, ...) on strings
+        from .calls import str_format_fn
+
+        return Val(STR, str_format_fn(len(args) - 1)(*[a.v for a in args]))
     if name == "hash_num":
         from .calls import HashNum
 
